@@ -214,7 +214,10 @@ def run(tier):
     fails, runs = model_e.dataset_level_readahead(common.import_impl(), common.rng_for('C08ra'), tier)
     for msg in fails[:5]:
         res['failures'].append(dict(kind='program', summary=msg, config=dict(kind='dataset_readahead')))
-    res['coverage']['readahead_runs_through_dataset_api'] = runs
+    pf, pr = model_e.process_backend_readahead(common.import_impl(), common.rng_for('C08pra'), tier)
+    for msg in pf[:5]:
+        res['failures'].append(dict(kind='program', summary=msg, config=dict(kind='process_readahead')))
+    res['coverage']['readahead_runs_through_dataset_api'] = runs + pr
     nca = 250 if tier == 'quick' else 4000
     for msg in combined_access_support(common.import_impl(), common.rng_for('C08comb'), nca)[:5]:
         res['failures'].append(dict(kind='program', summary=msg, config=dict(kind='combined_access')))
